@@ -28,7 +28,9 @@ A24 = ([("app", r, pd, None) for r in (-1, 0, 1, 4) for pd in ("N", "Y")] +
        [("rr", 0, "N", None), ("rr", 1, "N", None), ("rrx", 0, "N", None)])
 A40 = A24 + ([("hb", r, pd, None) for r in (-1, 4) for pd in ("N", "Y")] + [("tr", -1, "N", None), ("tr", 4, "N", None)] +
              [("gf", r, "N", n) for r in (0, 1) for n in ("s+1", "s+3")] + [("gf", 0, "Y", "E-1"), ("gf", 4, "Y", "s+3")] +
-             [("rs", -1, "N", "s+3"), ("rs", 4, "N", "s+3"), ("rs", 0, "Y", "s+1"), ("app", 2, "N", None)])
+             [("rs", -1, "N", "s+3"), ("rs", 4, "N", "s+3"), ("rs", 0, "Y", "s+1"), ("app", 2, "N", None)] +
+             # a Logon in the middle of the session (numbered like any other frame) and a SequenceReset that lacks NewSeqNo
+             [("lg", r, "N", None) for r in (0, 1, 4)] + [("rsn", r, "N", None) for r in (-1, 0, 4)])
 STARTS = ["active", "awaiting", "active-handler-raises", "active-journal-write-fails", "logon-too-high"]
 
 
@@ -145,6 +147,15 @@ async def run_history(acc, clock, role, start, syms, cid):
             elif t == "rrx":
                 # a ResendRequest for a range this side never sent (the library ignores it): it must not disturb the inbound side
                 fr = peer.frame("2", s, [(7, ep._session.next_num_out + 3 + cnt % 2), (16, 0)], possdup=pdup)
+            elif t == "lg":
+                if role == "acceptor":
+                    # what an acceptor does with a second Logon on a live session is not this property's subject (C11 judges Logons)
+                    trace.append(sym_str(sym) + "(skipped)")
+                    continue
+                fr = peer.frame("A", s, [(98, 0), (108, 30)], possdup=pdup)
+            elif t == "rsn":
+                fr = peer.frame("4", s, [(123, "N")], possdup=pdup)
+                nontrivial = True
             elif t == "gf":
                 fr = peer.frame("4", s, [(123, "Y"), (36, new)], possdup=pdup)
                 nontrivial = True
